@@ -20,8 +20,8 @@ def build(tier):
                              fixrev=True, timeout=400 if quick else 2400, note=" (prefix, extensions in titles)"))
     # the output directory in effect is the one requested: a relative -o / configured directory resolved against the directory current when main() runs
     C16 = importlib.import_module('C16')
-    for us in (False, True):
-        o = C16.ob('output', 'directory', 'outdir', 2, 300 if quick else 1800, dict(use_s=us, c_set=True))
+    for fixb in (dict(use_s=False, c_set=True), dict(use_s=True, c_set=True, s_set=False), dict(use_s=True, c_set=True, s_set=True)):
+        o = C16.ob('output', 'directory', 'outdir', 2, 300 if quick else 1800, fixb)
         o.name = o.name.replace('C16 outdir', 'C18.a requested output directory')
         obs.append(o)
     return dict(obligations=obs, explanation="x", assumptions=[])
